@@ -60,6 +60,16 @@ def make_frame(case):
     if case['cls'] in ('PDTS', 'PDPP') and not case.get('keep_dose_cols'):
         df = df.drop(columns=[c for c in df.columns if c in (
             'Dose', 'Duration', 'Amt', 'Len')])
+    # row labels as left behind by concatenating / filtering frames
+    ix = case.get('index', 'range')
+    if ix == 'dup':
+        df.index = [i % 2 for i in range(len(df))]
+    elif ix == 'zeros':
+        df.index = [0] * len(df)
+    elif ix == 'reversed':
+        df.index = list(range(len(df)))[::-1]
+    elif ix == 'labels':
+        df.index = ['r%d' % ((7 * i) % len(df)) for i in range(len(df))]
     return df, keys
 
 
@@ -160,6 +170,28 @@ def w_bands(case):
     cls = getattr(chi.plots, CLASSES[case['cls']])
     fig = cls()
     probs = case['probs']
+    ix = case.get('index', 'range')
+    if ix == 'dup':
+        df.index = [i % 2 for i in range(len(df))]
+        before = df.copy(deep=True)
+    elif ix == 'reversed':
+        df.index = list(range(len(df)))[::-1]
+        before = df.copy(deep=True)
+    if case.get('earlier'):
+        # an earlier prediction on the same figure: same observable, probabilities
+        # and number of rows, other sample values
+        rows0 = []
+        for (t, samples), (_, other) in zip(case['samples'], case['earlier']):
+            for v in other:
+                rows0.append({'Time': t, 'Observable': 'x', 'Value': v,
+                              'Dose': np.nan, 'Duration': np.nan})
+        rows0.append({'Time': case['samples'][0][0], 'Observable': 'other',
+                      'Value': 55.0, 'Dose': np.nan, 'Duration': np.nan})
+        fig.add_prediction(pd.DataFrame(rows0), observable='x',
+                           bulk_probs=list(probs))
+        n_before = len(fig._fig.data)
+    else:
+        n_before = 0
     fig.add_prediction(df, observable='x', bulk_probs=list(probs))
     if not before.equals(df):
         viol.append({'sub': 'frame', 'message': 'add_prediction altered the '
@@ -167,7 +199,7 @@ def w_bands(case):
                      'observed': 'changed', 'behaviour': 'frame_mutated'})
     times = [t for t, _ in case['samples']]
     bands = {}
-    for tr in fig._fig.data:
+    for tr in fig._fig.data[n_before:]:
         if tr.fill != 'toself':
             continue
         p = float(str(tr.text).split()[0])
@@ -244,6 +276,8 @@ def build(tier, seed):
                             base.append([_id, 1.0, None, None, 3.0, 0.25])
                         # a measurement recorded in the same row as a dose
                         base.append([_id, 3.0, 'A', 0.4 + k, 1.0 + k, 0.1])
+                        # a dose row without duration (bolus by default)
+                        base.append([_id, 2.5, None, None, 0.7 + k, None])
                 n = len(base)
                 if n <= 4:
                     orders = list(itertools.permutations(range(n)))
@@ -256,9 +290,13 @@ def build(tier, seed):
                         for ck in (False, True):
                             if ck and tier == 'quick' and order != orders[0]:
                                 continue
-                            data.append({'cls': cls, 'rows': [base[i] for i in
-                                                              order],
-                                         'observable': obs, 'custom_keys': ck})
+                            for ix in (('range', 'dup', 'zeros', 'reversed',
+                                        'labels') if order == orders[0] or
+                                       tier == 'thorough' else ('range',)):
+                                data.append({'cls': cls, 'rows': [base[i] for i in
+                                                                  order],
+                                             'observable': obs, 'custom_keys': ck,
+                                             'index': ix})
     # small frames: every row permutation
     small = [[1, 0.5, 'A', 2.0, None, None], [2, 0.5, 'A', 2.0, None, None],
              [1, 1.5, 'B', 3.0, None, None], [2, 1.0, 'A', 1.0, None, None]]
@@ -284,10 +322,16 @@ def build(tier, seed):
                 if tier == 'quick' and (i + j) % 3:
                     continue
                 second = multisets[(i * 7 + 3) % len(multisets)]
-                bands.append({'cls': cls, 'probs': ps,
-                              'samples': [[0.5, ms], [1.5, second]],
-                              'row_order': ['asc', 'desc', 'interleaved'][
-                                  (i + 2 * j) % 3]})
+                c = {'cls': cls, 'probs': ps,
+                     'samples': [[0.5, ms], [1.5, second]],
+                     'row_order': ['asc', 'desc', 'interleaved'][(i + 2 * j) % 3],
+                     'index': ['range', 'dup', 'reversed'][(i + j) % 3]}
+                if (i + j) % 2:
+                    # same numbers of samples per time point, other values
+                    shift = [[0.5, [v + 10.0 for v in ms]],
+                             [1.5, [v * 3.0 for v in second]]]
+                    c['earlier'] = shift
+                bands.append(c)
     return {
         'parts': [
             Part('data', data, w_data, 'figure class x ID sets x observables x row '
